@@ -325,4 +325,11 @@ def main(check_fn, pid, level="model_checking"):
     except Machinery as e:
         log("MACHINERY FAILURE in %s: %s" % (pid, e))
         rc = 2
+    except SystemExit:
+        raise
+    except BaseException:  # a bug in the machinery is never a verdict
+        import traceback
+        traceback.print_exc()
+        log("MACHINERY FAILURE in %s: unexpected exception" % pid)
+        rc = 2
     sys.exit(rc)
